@@ -504,3 +504,59 @@ def decorate_nested(tokens: T.List[Tok], rnd: random.Random, rate: float = 0.3, 
             if rnd.random() < 0.2:
                 out.append(S('eol'))
     return out
+
+
+# ---------------------------------------------------------------------------
+# programs spread over sub-directories and subprojects (C01: subdir() / subproject())
+
+def tree_program(rnd: random.Random) -> T.Tuple[T.List[Tok], T.Dict[str, T.List[Tok]], T.Dict[str, T.List[Tok]]]:
+    """returns (main tokens, {subdir path: tokens}, {subproject name: tokens})"""
+    g = Gen(rnd, rnd.choice([0.0, 0.0, 0.0, 0.02]))
+    files: T.Dict[str, T.List[Tok]] = {}
+    subs: T.Dict[str, T.List[Tok]] = {}
+    main: T.List[Tok] = g.block(0, rnd.randint(1, 2))
+    dirs = rnd.sample(['d1', 'd2', 'lib', 'src_x'], rnd.choice([0, 1, 1, 2]))
+    for d in dirs:
+        # the included file sees and changes the includer's variables
+        body = g.block(0, rnd.randint(1, 2))
+        if rnd.random() < 0.4:
+            inner = rnd.choice(['e', 'inner'])
+            g2body = g.block(0, rnd.randint(1, 2))
+            files[d + '/' + inner] = g2body
+            body += g.call('subdir', [g.strlit(inner)]) + [S('eol')]
+            body += g.block(0, 1)
+        files[d] = body
+        call = g.call('subdir', [g.strlit(d)])
+        if rnd.random() < 0.25:
+            main += [S('if')] + g.expr('bool') + [S('eol')] + call + [S('eol'), S('endif'), S('eol')]
+            g.vars = {}                               # whatever the file defines may not exist afterwards
+        else:
+            main += call + [S('eol')]
+        main += g.block(0, rnd.randint(0, 2))
+    if rnd.random() < 0.08:
+        main += g.call('subdir', [g.strlit('no_such_dir')]) + [S('eol')]
+    for name in rnd.sample(['sp1', 'sp2'], rnd.choice([0, 1, 1, 2])):
+        sg = Gen(rnd, rnd.choice([0.0, 0.0, 0.0, 0.05]))
+        sbody = sg.block(0, rnd.randint(1, 3))
+        if rnd.random() < 0.1 and g.vars:
+            sbody += [ident('leak'), S('assign'), ident(rnd.choice(list(g.vars))), S('eol')]   # parent variables are not visible
+        subs[name] = sbody
+        handle = rnd.choice(['sp', 'proj', 'h'])
+        main += [ident(handle), S('assign')] + g.call('subproject', [g.strlit(name)]) + [S('eol')]
+        for _ in range(rnd.randint(1, 3)):
+            target = rnd.choice(g.names)
+            cand = list(sg.vars) or ['nope']
+            wanted = rnd.choice(cand) if rnd.random() < 0.85 else 'nope'
+            args = [g.strlit(wanted)]
+            if rnd.random() < 0.3:
+                args.append(g.atom(rnd.choice(['int', 'str'])))
+            main += [ident(target), S('assign'), ident(handle), S('dot')] + g.call('get_variable', args) + [S('eol')]
+            g.vars.pop(target, None)
+            # the subproject's names are not names of the parent
+            if rnd.random() < 0.5:
+                main += [ident('seen'), S('assign')] + g.call('is_variable', [g.strlit(wanted)]) + [S('eol')]
+                g.vars['seen'] = 'bool'
+    if rnd.random() < 0.05:
+        main += [ident('h'), S('assign')] + g.call('subproject', [g.strlit('missing_sp')]) + [S('eol')]
+    main += g.block(0, rnd.randint(0, 2))
+    return main, files, subs
